@@ -43,6 +43,22 @@ fn from_native(xs: &[Z], bits: u32, signed: bool, st: ScalarType, via64: bool) -
 }
 
 pub fn corr(run: &mut Run) {
+    corr_bytes(run);
+    corr_containers(run);
+    run.rule = "stream A: native integer slices (10 native types, boundary-biased values) x 11 scalar types, length 0..20, \
+                encoded by Value::from_flattened_array(_u64), read back by to_flattened_array_u64/u128 and the typed accessors; \
+                B: random byte strings decoded by vec_u64/u128_from_bytes; C: check_type of byte values against array types; \
+                D: check_type / zero_of_type on random nested types (depth <= 3) with valid and structurally mutated values and invalid types; \
+                S: typed scalar accessors to_u8..to_i128 on random bytes; E: serde_json::to_string of random typed values (all 11 scalar \
+                types, boundary-biased elements, ragged bit arrays with stray bits, nested tuples / named tuples / vectors) against the \
+                model's rendering, an independent expected text, and from_str + is_equal; F: from_str::<TypedValue> on those texts and on \
+                1-2 structural mutations of them (dropped / duplicated / unknown fields, wrong kind or type, out-of-range and huge \
+                numbers, ragged arrays, mixed sequences) against the model's ofJ; G: is_equal on byte-flipped copies. \
+                Non-trivial: non-empty input; distinct by request text."
+        .to_owned();
+}
+
+fn corr_bytes(run: &mut Run) {
     run.rule = "stream A: native integer slices (10 native types, boundary-biased values) × 11 scalar types, \
                 length 0..20, encoded by Value::from_flattened_array(_u64) and read back by to_flattened_array_u64/u128; \
                 stream B: random byte strings decoded by vec_u64/u128_from_bytes; stream C: check_type of byte values \
@@ -189,6 +205,732 @@ pub fn corr(run: &mut Run) {
                 }
             }
             _ => run.oracle_fail("C13:panic:check_type", format!("check_type {} {:?} {}", st_name(st), shape, len)),
+        }
+    }
+}
+
+// ---------------------------------------------------------------------------------------------
+// containers: check_type, zero_of_type, scalar accessors, JSON form of TypedValue
+// ---------------------------------------------------------------------------------------------
+use ciphercore_base::typed_value::TypedValue;
+use ciphercore_base::typed_value_operations::TypedValueOperations;
+
+const NAMES: [&str; 9] = ["a", "b1", "key_2", "x", "name", "value", "kind", "type", "Zz"];
+
+fn gen_type(rng: &mut Rng, depth: u32) -> Type {
+    let k = if depth == 0 { rng.below(2) } else { rng.below(7) };
+    match k {
+        0 => scalar_type(*rng.pick(&ALL_ST)),
+        1 | 5 => array_type(gen_shape(rng, 3, 4, 24), *rng.pick(&ALL_ST)),
+        2 => {
+            let n = if rng.chance(1, 12) { 0 } else { 1 + rng.below(3) };
+            vector_type(n, gen_type(rng, depth - 1))
+        }
+        3 | 6 => {
+            let k = if rng.chance(1, 10) { 0 } else { 1 + rng.below(3) };
+            tuple_type((0..k).map(|_| gen_type(rng, depth - 1)).collect())
+        }
+        _ => {
+            let k = if rng.chance(1, 14) { 0 } else { 1 + rng.below(3) } as usize;
+            let mut names: Vec<&str> = NAMES.to_vec();
+            rng.shuffle(&mut names);
+            named_tuple_type((0..k).map(|i| (names[i].to_owned(), gen_type(rng, depth - 1))).collect())
+        }
+    }
+}
+
+fn enc_type(t: &Type) -> String {
+    match t {
+        Type::Scalar(st) => format!("s:{}", st_name(*st)),
+        Type::Array(sh, st) => format!("a:{}:{}", st_name(*st), show_list(sh)),
+        Type::Vector(n, e) => format!("v:{} {}", n, enc_type(e)),
+        Type::Tuple(ts) => {
+            let mut s = format!("t:{}", ts.len());
+            for e in ts {
+                s.push(' ');
+                s.push_str(&enc_type(e));
+            }
+            s
+        }
+        Type::NamedTuple(fs) => {
+            let mut s = format!("n:{}", fs.len());
+            for (n, e) in fs {
+                s.push_str(&format!(" N{} {}", n, enc_type(e)));
+            }
+            s
+        }
+    }
+}
+
+fn enc_value(v: &Value) -> String {
+    match v.to_vector() {
+        Err(_) => format!("b:{}", show_list(&bytes_of(v))),
+        Ok(ch) => {
+            let mut s = format!("l:{}", ch.len());
+            for c in &ch {
+                s.push(' ');
+                s.push_str(&enc_value(c));
+            }
+            s
+        }
+    }
+}
+
+/// expected JSON text of an array, written from the integers (independent of the serializer)
+fn exp_array(xs: &[Z], shape: &[u64]) -> String {
+    if shape.len() <= 1 {
+        return format!("[{}]", xs.iter().map(|z| z.to_string()).collect::<Vec<_>>().join(","));
+    }
+    let inner: usize = shape[1..].iter().product::<u64>() as usize;
+    let parts: Vec<String> = (0..shape[0] as usize).map(|i| exp_array(&xs[i * inner..(i + 1) * inner], &shape[1..])).collect();
+    format!("[{}]", parts.join(","))
+}
+
+/// a value of type `t` built from integers (or, for bits, sometimes from raw bytes with stray bits)
+/// and the JSON text the property expects for it
+fn gen_value(rng: &mut Rng, t: &Type, run: &mut Run) -> (Value, String) {
+    match t {
+        Type::Scalar(st) | Type::Array(_, st) => {
+            let shape: Vec<u64> = if let Type::Array(sh, _) = t { sh.clone() } else { vec![1] };
+            let n: u64 = shape.iter().product();
+            let (xs, v) = if *st == BIT && rng.chance(1, 3) {
+                let bytes: Vec<u8> = (0..(n + 7) / 8).map(|_| rng.next() as u8).collect();
+                let xs: Vec<Z> = (0..n).map(|i| Z::I(((bytes[(i / 8) as usize] >> (i % 8)) & 1) as i128)).collect();
+                run.count("E:raw-bits");
+                (xs, Value::from_bytes(bytes))
+            } else {
+                gen_array_value(rng, &shape, *st)
+            };
+            let xs: Vec<Z> = xs.iter().map(|z| z.wrap_to(*st)).collect();
+            let j = if t.is_scalar() {
+                format!("{{\"kind\":\"scalar\",\"type\":\"{}\",\"value\":{}}}", st_name(*st), xs[0])
+            } else {
+                format!("{{\"kind\":\"array\",\"type\":\"{}\",\"value\":{}}}", st_name(*st), exp_array(&xs, &shape))
+            };
+            (v, j)
+        }
+        Type::Vector(n, e) => {
+            let (vs, js): (Vec<Value>, Vec<String>) = (0..*n).map(|_| gen_value(rng, e, run)).unzip();
+            (Value::from_vector(vs), format!("{{\"kind\":\"vector\",\"value\":[{}]}}", js.join(",")))
+        }
+        Type::Tuple(ts) => {
+            let (vs, js): (Vec<Value>, Vec<String>) = ts.iter().map(|e| gen_value(rng, e, run)).unzip();
+            (Value::from_vector(vs), format!("{{\"kind\":\"tuple\",\"value\":[{}]}}", js.join(",")))
+        }
+        Type::NamedTuple(fs) => {
+            let mut vs = vec![];
+            let mut js = vec![];
+            for (name, e) in fs {
+                let (v, j) = gen_value(rng, e, run);
+                vs.push(v);
+                js.push(format!("{{\"name\":\"{}\",\"value\":{}}}", name, j));
+            }
+            (Value::from_vector(vs), format!("{{\"kind\":\"named tuple\",\"value\":[{}]}}", js.join(",")))
+        }
+    }
+}
+
+/// naive layout predicate of the property (byte length / nesting), independent of `check_type`
+fn layout(v: &Value, t: &Type) -> bool {
+    match t {
+        Type::Scalar(_) | Type::Array(_, _) => {
+            let n: u64 = if let Type::Array(sh, _) = t { sh.iter().product() } else { 1 };
+            let bits = n * st_bits(t.get_scalar_type()) as u64;
+            match v.to_vector() {
+                Err(_) => {
+                    let len = bytes_of(v).len() as u64;
+                    len * 8 >= bits && len * 8 < bits + 8
+                }
+                Ok(_) => false,
+            }
+        }
+        _ => {
+            let ts: Vec<Type> = match t {
+                Type::Vector(n, e) => (0..*n).map(|_| (**e).clone()).collect(),
+                Type::Tuple(ts) => ts.iter().map(|e| (**e).clone()).collect(),
+                Type::NamedTuple(fs) => fs.iter().map(|(_, e)| (**e).clone()).collect(),
+                _ => unreachable!(),
+            };
+            match v.to_vector() {
+                Ok(ch) => ch.len() == ts.len() && ch.iter().zip(ts.iter()).all(|(c, e)| layout(c, e)),
+                Err(_) => false,
+            }
+        }
+    }
+}
+
+fn count_nodes(v: &Value) -> u64 {
+    match v.to_vector() {
+        Ok(ch) => 1 + ch.iter().map(count_nodes).sum::<u64>(),
+        Err(_) => 1,
+    }
+}
+
+/// structural mutation of the `idx`-th node (pre-order) of a value
+fn mutate_value(v: &Value, idx: &mut i64, rng: &mut Rng) -> Value {
+    let here = *idx == 0;
+    *idx -= 1;
+    match v.to_vector() {
+        Err(_) => {
+            let mut b = bytes_of(v);
+            if here {
+                match rng.below(4) {
+                    0 => b.push(7),
+                    1 => {
+                        b.pop();
+                    }
+                    2 => return Value::from_vector(vec![Value::from_bytes(b)]),
+                    _ => {
+                        b.extend_from_slice(&[0; 8]);
+                    }
+                }
+            }
+            Value::from_bytes(b)
+        }
+        Ok(ch) => {
+            let mut out: Vec<Value> = ch.iter().map(|c| mutate_value(c, idx, rng)).collect();
+            if here {
+                match rng.below(4) {
+                    0 => out.push(Value::from_bytes(vec![0])),
+                    1 => {
+                        out.pop();
+                    }
+                    2 => return Value::from_bytes(vec![0; out.len()]),
+                    _ => out.reverse(),
+                }
+            }
+            Value::from_vector(out)
+        }
+    }
+}
+
+/// flip one byte of the `idx`-th leaf; `low_bit` flips bit 0, otherwise the top bit
+fn flip_leaf(v: &Value, idx: &mut i64, top: bool) -> Value {
+    match v.to_vector() {
+        Err(_) => {
+            let mut b = bytes_of(v);
+            if *idx == 0 && !b.is_empty() {
+                let l = b.len() - 1;
+                b[l] ^= if top { 0x80 } else { 1 };
+            }
+            *idx -= 1;
+            Value::from_bytes(b)
+        }
+        Ok(ch) => Value::from_vector(ch.iter().map(|c| flip_leaf(c, idx, top)).collect()),
+    }
+}
+
+fn count_leaves(v: &Value) -> u64 {
+    match v.to_vector() {
+        Ok(ch) => ch.iter().map(count_leaves).sum::<u64>(),
+        Err(_) => 1,
+    }
+}
+
+fn has_empty_named(t: &Type) -> bool {
+    match t {
+        Type::Scalar(_) | Type::Array(_, _) => false,
+        Type::Vector(n, e) => *n > 0 && has_empty_named(e),
+        Type::Tuple(ts) => ts.iter().any(|e| has_empty_named(e)),
+        Type::NamedTuple(fs) => fs.is_empty() || fs.iter().any(|(_, e)| has_empty_named(e)),
+    }
+}
+
+/// does the type contain a shape the JSON form cannot express (documented findings)?
+fn json_blind_spot(t: &Type) -> Option<&'static str> {
+    if has_empty_named(t) {
+        return Some("empty-named-tuple");
+    }
+    match t {
+        Type::Scalar(_) | Type::Array(_, _) => None,
+        Type::Vector(n, e) => {
+            if *n == 0 && **e != tuple_type(vec![]) {
+                Some("empty-vector")
+            } else if *n == 0 {
+                None
+            } else {
+                json_blind_spot(e)
+            }
+        }
+        Type::Tuple(ts) => ts.iter().find_map(|e| json_blind_spot(e)),
+        Type::NamedTuple(fs) => {
+            if fs.is_empty() {
+                Some("empty-named-tuple")
+            } else {
+                fs.iter().find_map(|(_, e)| json_blind_spot(e))
+            }
+        }
+    }
+}
+
+/// the type with the element type of every empty vector replaced by `()` — what the JSON form keeps of it
+fn erase_empty_vectors(t: &Type) -> Type {
+    match t {
+        Type::Scalar(_) | Type::Array(_, _) => t.clone(),
+        Type::Vector(0, _) => vector_type(0, tuple_type(vec![])),
+        Type::Vector(n, e) => vector_type(*n, erase_empty_vectors(e)),
+        Type::Tuple(ts) => tuple_type(ts.iter().map(|e| erase_empty_vectors(e)).collect()),
+        Type::NamedTuple(fs) => named_tuple_type(fs.iter().map(|(n, e)| (n.clone(), erase_empty_vectors(e))).collect()),
+    }
+}
+
+#[derive(Clone, Debug)]
+enum Jv {
+    Num(String),
+    Str(String),
+    Bool(bool),
+    Null,
+    Arr(Vec<Jv>),
+    Obj(Vec<(String, Jv)>),
+}
+
+impl Jv {
+    fn from_serde(v: &serde_json::Value) -> Jv {
+        match v {
+            serde_json::Value::Null => Jv::Null,
+            serde_json::Value::Bool(b) => Jv::Bool(*b),
+            serde_json::Value::Number(n) => Jv::Num(n.to_string()),
+            serde_json::Value::String(s) => Jv::Str(s.clone()),
+            serde_json::Value::Array(a) => Jv::Arr(a.iter().map(Jv::from_serde).collect()),
+            serde_json::Value::Object(m) => Jv::Obj(m.iter().map(|(k, v)| (k.clone(), Jv::from_serde(v))).collect()),
+        }
+    }
+    fn text(&self) -> String {
+        match self {
+            Jv::Num(s) => s.clone(),
+            Jv::Str(s) => format!("\"{}\"", s),
+            Jv::Bool(b) => b.to_string(),
+            Jv::Null => "null".into(),
+            Jv::Arr(a) => format!("[{}]", a.iter().map(|x| x.text()).collect::<Vec<_>>().join(",")),
+            Jv::Obj(m) => format!("{{{}}}", m.iter().map(|(k, v)| format!("\"{}\":{}", k, v.text())).collect::<Vec<_>>().join(",")),
+        }
+    }
+    fn tokens(&self, out: &mut Vec<String>) {
+        match self {
+            Jv::Num(s) => out.push(format!("#{}", s)),
+            Jv::Str(s) => out.push(format!("\"{}", s.replace(' ', "~"))),
+            Jv::Bool(b) => out.push(if *b { "T".into() } else { "F".into() }),
+            Jv::Null => out.push("Z".into()),
+            Jv::Arr(a) => {
+                out.push(format!("[{}", a.len()));
+                for x in a {
+                    x.tokens(out);
+                }
+            }
+            Jv::Obj(m) => {
+                out.push(format!("{{{}", m.len()));
+                for (k, v) in m {
+                    out.push(format!("\"{}", k.replace(' ', "~")));
+                    v.tokens(out);
+                }
+            }
+        }
+    }
+    fn size(&self) -> u64 {
+        match self {
+            Jv::Arr(a) => 1 + a.iter().map(|x| x.size()).sum::<u64>(),
+            Jv::Obj(m) => 1 + m.iter().map(|(_, x)| x.size()).sum::<u64>(),
+            _ => 1,
+        }
+    }
+    /// apply `f` to the `idx`-th node in pre-order
+    fn at(&mut self, idx: &mut i64, f: &mut dyn FnMut(&mut Jv)) {
+        if *idx == 0 {
+            *idx -= 1;
+            f(self);
+            return;
+        }
+        *idx -= 1;
+        match self {
+            Jv::Arr(a) => {
+                for x in a.iter_mut() {
+                    if *idx < 0 {
+                        return;
+                    }
+                    x.at(idx, f);
+                }
+            }
+            Jv::Obj(m) => {
+                for (_, x) in m.iter_mut() {
+                    if *idx < 0 {
+                        return;
+                    }
+                    x.at(idx, f);
+                }
+            }
+            _ => {}
+        }
+    }
+}
+
+const KINDS: [&str; 6] = ["scalar", "array", "vector", "tuple", "named tuple", "bogus"];
+const NUMS: [&str; 14] = [
+    "0",
+    "1",
+    "-1",
+    "2",
+    "255",
+    "-129",
+    "18446744073709551615",
+    "18446744073709551616",
+    "-9223372036854775808",
+    "-9223372036854775809",
+    "340282366920938463463374607431768211455",
+    "340282366920938463463374607431768211456",
+    "-170141183460469231731687303715884105728",
+    "-170141183460469231731687303715884105729",
+];
+
+fn mutate_json(j: &mut Jv, rng: &mut Rng, run: &mut Run) {
+    let n = j.size();
+    let mut idx = rng.below(n) as i64;
+    let r = rng.next();
+    let r2 = rng.next();
+    let mut what = "none";
+    j.at(&mut idx, &mut |node: &mut Jv| {
+        let r2u = r2 as usize;
+        match node {
+            Jv::Obj(m) => match r % 7 {
+                0 if !m.is_empty() => {
+                    m.remove(r2u % m.len());
+                    what = "drop-field";
+                }
+                1 if !m.is_empty() => {
+                    let e = m[r2u % m.len()].clone();
+                    m.push(e);
+                    what = "dup-field";
+                }
+                2 => {
+                    m.push(("extra".into(), Jv::Num("1".into())));
+                    what = "unknown-field";
+                }
+                3 => {
+                    m.insert(0, ("name".into(), Jv::Str("nm".into())));
+                    what = "add-name";
+                }
+                4 => {
+                    m.reverse();
+                    what = "reorder-fields";
+                }
+                5 => {
+                    let inner = node.clone();
+                    *node = Jv::Arr(vec![inner]);
+                    what = "wrap-in-array";
+                }
+                _ => {
+                    for (k, v) in m.iter_mut() {
+                        if k == "kind" {
+                            *v = Jv::Str(KINDS[r2u % KINDS.len()].into());
+                            what = "change-kind";
+                        }
+                    }
+                }
+            },
+            Jv::Arr(a) => match r % 6 {
+                0 if !a.is_empty() => {
+                    a.remove(r2u % a.len());
+                    what = "drop-element";
+                }
+                1 if !a.is_empty() => {
+                    let e = a[r2u % a.len()].clone();
+                    a.push(e);
+                    what = "dup-element";
+                }
+                2 => {
+                    a.push(Jv::Num(NUMS[r2u % NUMS.len()].into()));
+                    what = "push-number";
+                }
+                3 => {
+                    a.clear();
+                    what = "empty-array";
+                }
+                4 => {
+                    a.push(Jv::Arr(vec![]));
+                    what = "push-empty-array";
+                }
+                _ => {
+                    let inner = node.clone();
+                    *node = Jv::Arr(vec![inner]);
+                    what = "wrap-in-array";
+                }
+            },
+            Jv::Num(_) => match r % 5 {
+                0 => {
+                    *node = Jv::Bool(r2 % 2 == 0);
+                    what = "number-to-bool";
+                }
+                1 => {
+                    *node = Jv::Null;
+                    what = "number-to-null";
+                }
+                2 => {
+                    *node = Jv::Str("7".into());
+                    what = "number-to-string";
+                }
+                3 => {
+                    let inner = node.clone();
+                    *node = Jv::Arr(vec![inner]);
+                    what = "wrap-in-array";
+                }
+                _ => {
+                    *node = Jv::Num(NUMS[r2u % NUMS.len()].into());
+                    what = "change-number";
+                }
+            },
+            Jv::Str(s) => match r % 3 {
+                0 => {
+                    *s = st_name(ALL_ST[r2u % 11]).into();
+                    what = "string-to-type";
+                }
+                1 => {
+                    *s = KINDS[r2u % KINDS.len()].into();
+                    what = "string-to-kind";
+                }
+                _ => {
+                    *node = Jv::Num("3".into());
+                    what = "string-to-number";
+                }
+            },
+            _ => {}
+        }
+    });
+    run.count(&format!("F:mut:{}", what));
+}
+
+fn tv_answer(r: &std::result::Result<TypedValue, serde_json::Error>) -> String {
+    match r {
+        Ok(tv) => format!("{} {}", enc_type(&tv.t), enc_value(&tv.value)),
+        Err(_) => "ERR".into(),
+    }
+}
+
+fn corr_containers(run: &mut Run) {
+    // ---- stream D: check_type / zero_of_type ----
+    let mut rng = run.rng("D");
+    for i in 0..run.tier.scale(1500, 15000) {
+        let mut t = gen_type(&mut rng, 3);
+        let mut invalid = false;
+        if i % 9 == 0 {
+            // invalid types: empty shape, zero dimension, overflowing shape, duplicate names
+            t = match rng.below(5) {
+                0 => array_type(vec![], *rng.pick(&ALL_ST)),
+                1 => array_type(vec![2, 0, 3], *rng.pick(&ALL_ST)),
+                2 => array_type(vec![1 << 32, 1 << 32], BIT),
+                3 => named_tuple_type(vec![("a".into(), scalar_type(BIT)), ("a".into(), scalar_type(UINT8))]),
+                _ => tuple_type(vec![t.clone(), vector_type(2, array_type(vec![0], INT32))]),
+            };
+            invalid = true;
+        }
+        let v = if invalid {
+            Value::from_vector(vec![Value::from_bytes(vec![0]), Value::from_bytes(vec![0])])
+        } else {
+            let (v, _) = gen_value(&mut rng, &t, run);
+            let zero = catch(|| Value::zero_of_type(t.clone()));
+            match zero {
+                Ok(z) => {
+                    run.case(format!("zero {}", enc_type(&t)), enc_value(&z), true);
+                    if !layout(&z, &t) {
+                        run.oracle_fail("C13:zero_of_type:layout", format!("zero_of_type({}) = {}", enc_type(&t), enc_value(&z)));
+                    }
+                }
+                Err(p) => run.oracle_fail("C13:panic:zero_of_type", format!("{} {}", enc_type(&t), p)),
+            }
+            if rng.chance(1, 2) {
+                v
+            } else {
+                let mut idx = rng.below(count_nodes(&v)) as i64;
+                mutate_value(&v, &mut idx, &mut rng)
+            }
+        };
+        let req = format!("checktv {} {}", enc_type(&t), enc_value(&v));
+        match catch(|| v.check_type(t.clone())) {
+            Ok(r) => {
+                let ans = match &r {
+                    Ok(true) => "1",
+                    Ok(false) => "0",
+                    Err(_) => "ERR",
+                };
+                run.count(&format!("D:{}", ans));
+                run.case(req.clone(), ans.into(), true);
+                run.oracle_case(&req, true);
+                let want = if invalid { "ERR" } else if layout(&v, &t) { "1" } else { "0" };
+                if ans != want {
+                    run.oracle_fail("C13:check_type:nested", format!("{} says {} want {}", req, ans, want));
+                }
+            }
+            Err(p) => run.oracle_fail("C13:panic:check_type", format!("{} {}", req, p)),
+        }
+    }
+    // ---- stream S: typed scalar accessors ----
+    let mut rng = run.rng("S");
+    for _ in 0..run.tier.scale(1500, 15000) {
+        let st = *rng.pick(&ALL_ST);
+        let bl = ((st_bits(st) + 7) / 8) as u64;
+        let len = if rng.chance(9, 10) { bl } else { rng.below(3) * bl + rng.below(2) };
+        let bytes: Vec<u8> = (0..len)
+            .map(|_| match rng.below(4) {
+                0 => 0xff,
+                1 => 0x80,
+                2 => 0,
+                _ => rng.next() as u8,
+            })
+            .collect();
+        let (nb, ns) = *rng.pick(&native_kinds());
+        let v = Value::from_bytes(bytes.clone());
+        let r: std::result::Result<ciphercore_base::errors::Result<String>, String> = catch(|| {
+            Ok(match (nb, ns) {
+                (8, false) => v.to_u8(st)?.to_string(),
+                (8, true) => v.to_i8(st)?.to_string(),
+                (16, false) => v.to_u16(st)?.to_string(),
+                (16, true) => v.to_i16(st)?.to_string(),
+                (32, false) => v.to_u32(st)?.to_string(),
+                (32, true) => v.to_i32(st)?.to_string(),
+                (64, false) => v.to_u64(st)?.to_string(),
+                (64, true) => v.to_i64(st)?.to_string(),
+                (128, false) => v.to_u128(st)?.to_string(),
+                _ => v.to_i128(st)?.to_string(),
+            })
+        });
+        let req = format!("scalar {} {} {} {}", st_name(st), nb, ns as u8, show_list(&bytes));
+        match r {
+            Ok(r) => {
+                let ans = r.unwrap_or_else(|_| "ERR".into());
+                run.count(&format!("S:{}:{}", st_name(st), if ans == "ERR" { "err" } else { "ok" }));
+                run.case(req.clone(), ans.clone(), len > 0);
+                if len == bl {
+                    // oracle: the stored integer, sign-extended, wrapped to the native type
+                    run.oracle_case(&req, true);
+                    let mut raw: u128 = 0;
+                    for (i, b) in bytes.iter().enumerate() {
+                        raw |= (*b as u128) << (8 * i);
+                    }
+                    let x = if st == BIT { Z::I((raw & 1) as i128) } else { Z::U(raw).wrap_to(st) };
+                    let m = x.residue(nb);
+                    let want = if ns && nb < 128 && m >> (nb - 1) == 1 {
+                        Z::I(m as i128 - (1i128 << nb))
+                    } else if ns {
+                        Z::I(m as i128)
+                    } else {
+                        Z::U(m)
+                    };
+                    if ans != want.to_string() {
+                        run.oracle_fail("C13:accessor:scalar", format!("{} gives {} want {}", req, ans, want));
+                    }
+                }
+            }
+            Err(p) => run.oracle_fail("C13:panic:scalar-accessor", format!("{} {}", req, p)),
+        }
+    }
+    // ---- streams E, F, G: JSON ----
+    let mut rng = run.rng("E");
+    for _ in 0..run.tier.scale(1500, 15000) {
+        let t = gen_type(&mut rng, 3);
+        let (v, want_text) = gen_value(&mut rng, &t, run);
+        let tv = match catch(|| TypedValue::new(t.clone(), v.clone())) {
+            Ok(Ok(tv)) => tv,
+            other => {
+                run.oracle_fail("C13:typed-value:new", format!("{} {} rejected: {:?}", enc_type(&t), enc_value(&v), other.map(|r| r.is_ok())));
+                continue;
+            }
+        };
+        let req = format!("tojson {} {}", enc_type(&t), enc_value(&v));
+        let text = match catch(|| serde_json::to_string(&tv)) {
+            Ok(Ok(s)) => s,
+            Ok(Err(_)) => {
+                run.case(req.clone(), "ERR".into(), true);
+                run.oracle_fail("C13:json:serialize", format!("{} cannot be serialized", req));
+                continue;
+            }
+            Err(p) => {
+                run.oracle_fail("C13:panic:serialize", format!("{} {}", req, p));
+                continue;
+            }
+        };
+        run.count(&format!("E:kind:{}", match &t { Type::Scalar(_) => "scalar", Type::Array(_, _) => "array", Type::Vector(_, _) => "vector", Type::Tuple(_) => "tuple", Type::NamedTuple(_) => "named" }));
+        run.case(req.clone(), text.clone(), true);
+        run.oracle_case(&req, true);
+        // oracle 1: the text is what the property expects, written from the integers
+        if text != want_text {
+            run.oracle_fail("C13:json:text", format!("{} serializes to {} want {}", req, text, want_text));
+        }
+        // oracle 2: parses back to an equal typed value
+        let back = catch(|| serde_json::from_str::<TypedValue>(&text));
+        let blind = json_blind_spot(&t);
+        match &back {
+            Ok(Ok(tv2)) => match catch(|| tv.is_equal(tv2)) {
+                Ok(Ok(true)) => {
+                    if blind.is_some() {
+                        run.count("E:blind-spot-but-equal");
+                    }
+                }
+                other => {
+                    // the known loss of the element type of empty vectors is reported under its own signature only
+                    // when nothing else differs
+                    let only_erased = blind == Some("empty-vector")
+                        && tv2.t == erase_empty_vectors(&t)
+                        && matches!(
+                            catch(|| TypedValue::new(tv2.t.clone(), v.clone()).and_then(|e| e.is_equal(tv2))),
+                            Ok(Ok(true))
+                        );
+                    let sig = if only_erased {
+                        "C13:json:roundtrip:empty-vector".to_owned()
+                    } else {
+                        "C13:json:roundtrip:not-equal".to_owned()
+                    };
+                    run.oracle_fail(&sig, format!("{} -> {} parses back to {} (is_equal: {:?})", req, text, tv_answer(&Ok(tv2.clone())), other));
+                }
+            },
+            Ok(Err(e)) => {
+                let sig = if blind == Some("empty-named-tuple") && e.to_string().contains("named tuple") {
+                    "C13:json:roundtrip:empty-named-tuple".to_owned()
+                } else {
+                    "C13:json:roundtrip:rejected".to_owned()
+                };
+                run.oracle_fail(&sig, format!("{} -> {} does not parse back: {}", req, text, e));
+            }
+            Err(p) => run.oracle_fail("C13:panic:deserialize", format!("{} {}", text, p)),
+        }
+        // stream F: deserializer against the model, on the text and on mutations of it
+        let generic: serde_json::Value = match serde_json::from_str(&text) {
+            Ok(g) => g,
+            Err(_) => {
+                run.oracle_fail("C13:json:not-json", format!("{} -> {}", req, text));
+                continue;
+            }
+        };
+        let mut j = Jv::from_serde(&generic);
+        let mutated = rng.chance(3, 5);
+        if mutated {
+            mutate_json(&mut j, &mut rng, run);
+            if rng.chance(1, 4) {
+                mutate_json(&mut j, &mut rng, run);
+            }
+        }
+        let jt = j.text();
+        let mut toks = vec![];
+        j.tokens(&mut toks);
+        match catch(|| serde_json::from_str::<TypedValue>(&jt)) {
+            Ok(r) => {
+                let ans = tv_answer(&r);
+                run.count(&format!("F:{}:{}", if mutated { "mutated" } else { "plain" }, if r.is_ok() { "ok" } else { "err" }));
+                run.case(format!("ofjson {}", toks.join(" ")), ans, true);
+            }
+            Err(p) => run.oracle_fail("C13:panic:deserialize", format!("{} {}", jt, p)),
+        }
+        // stream G: is_equal on a copy with one flipped bit (stray bits of ragged bit arrays must not matter)
+        if let Ok(Ok(_)) = &back {
+            let leaves = count_leaves(&v);
+            if leaves > 0 {
+                let mut idx = rng.below(leaves) as i64;
+                let top = rng.chance(1, 2);
+                let w = flip_leaf(&v, &mut idx, top);
+                if let Ok(Ok(tw)) = catch(|| TypedValue::new(t.clone(), w.clone())) {
+                    if let Ok(Ok(b)) = catch(|| tv.is_equal(&tw)) {
+                        run.count(&format!("G:is_equal:{}", b));
+                        run.case(format!("iseq {} {} {}", enc_type(&t), enc_value(&v), enc_value(&w)), (if b { "1" } else { "0" }).into(), true);
+                    }
+                }
+            }
         }
     }
 }
